@@ -392,7 +392,7 @@ class ShmWire(Harness):
             return []
         cls = getattr(api, cname)
         out = []
-        for sval, ival in [("é", 2**32), ("données", 2**63), ("a\u20acb", 2**64 - 1), ("\x7f", 2**64), ("ok", -1), ("k" * 1100, 5), ("k" * 1015, 5)]:
+        for sval, ival in [("é", 2**32), ("données", 2**63), ("a\u20acb", 2**64 - 1), ("\x7f", 2**64), ("ok", -1), ("k" * 1100, 5), ("k" * 1015, 5), ("f", 1536.5), ("f", 2**32 + 0.75), ("f", -0.5)]:
             kw = {}
             for fname, ann in fl:
                 kw[fname] = sval if ann == "str" else (ival if ann == "int" else list(getattr(api, ann))[0])
